@@ -3,6 +3,7 @@ package harness
 import (
 	"context"
 	"fmt"
+	"sort"
 
 	spb "github.com/openconfig/gribi/v1/proto/service"
 	"google.golang.org/grpc/codes"
@@ -149,18 +150,112 @@ func flushReason(err error) *spb.FlushResponseError_Reason {
 	return nil
 }
 
-// checkTermination is called when a Modify RPC of a fault-free family ended
-// with an error: that is only legitimate if an operation of the stream was
-// invalid (the properties allow "FAILED or a clean RPC error").
+// checkTermination is called when a Modify RPC ended with an error although the
+// client did nothing wrong at the transport level. That is only legitimate if
+// an operation of the stream was invalid (the properties allow "FAILED or a
+// clean RPC error"). Operations of the dead stream that never got a result may
+// have been applied or not - the stream ended before their results could be
+// delivered - but only as a prefix in send order; the model is advanced to the
+// prefix that matches the implementation, and a state matching no prefix is a
+// C01 violation.
 func (e *env) checkTermination(s *session, term error) {
+	legit := false
 	for _, rec := range s.sent {
 		if rec.state != opSent {
 			continue
 		}
 		v, _, _ := e.model.Expect(rec.op)
 		if v == VFail || v == VEither {
-			return
+			legit = true
 		}
 	}
-	e.report("C06", "rpc-terminated", "Modify RPC ended with "+status.Code(term).String()+" although every unanswered operation was valid", term.Error(), false)
+	if !legit {
+		e.report("C06", "rpc-terminated", "Modify RPC ended with "+status.Code(term).String()+" although every unanswered operation was valid", term.Error(), false)
+	}
+	e.resolveUnacked(s, "C01")
+}
+
+// resolveUnacked advances the model over the prefix of s's unanswered
+// operations that the implementation applied before the stream died.
+func (e *env) resolveUnacked(s *session, prop string) {
+	var out []*opRec
+	for _, rec := range s.sent {
+		if rec.state == opSent {
+			out = append(out, rec)
+		}
+	}
+	sort.Slice(out, func(i, j int) bool { return out[i].seq < out[j].seq })
+	if len(out) == 0 {
+		return
+	}
+	impl := e.implSnapshot()
+	implHeld := map[uint64]bool{}
+	for _, p := range e.srv.VerifRIB().VerifPending() {
+		implHeld[p.ID] = true
+	}
+	m := e.model.Clone()
+	var applied []func()
+	match := func(k int) bool {
+		if len(diffSnap(modelSnapshot(m, "", -1), impl)) != 0 {
+			return false
+		}
+		// held operations of the prefix must be held, later ones must not be
+		for i, rec := range out {
+			_, isHeld := implHeld[rec.op.GetId()]
+			if i >= k && isHeld {
+				return false
+			}
+		}
+		return true
+	}
+	for k := 0; ; k++ {
+		if match(k) {
+			e.model = m
+			for _, f := range applied {
+				f()
+			}
+			if k > 0 {
+				e.probe("unacknowledged operations of a dead stream were applied (prefix)")
+			}
+			return
+		}
+		if k == len(out) {
+			break
+		}
+		rec := out[k]
+		v, en, _ := m.Expect(rec.op)
+		switch v {
+		case VProgram:
+			m.Apply(rec.op, en)
+			applied = append(applied, func() { rec.state = opProgrammed; rec.unacked = true })
+		case VEither:
+			// unspecified operation: it may or may not have been applied; try "applied" only if it has a key
+			if en != nil && implHas(impl, en.Key) == (rec.op.GetOp() != spb.AFTOperation_DELETE) {
+				m.Apply(rec.op, en)
+			}
+			applied = append(applied, func() { rec.state = opFailed; rec.unacked = true })
+		case VHold:
+			if !implHeld[rec.op.GetId()] {
+				// not processed: no longer prefix can match either, but keep scanning for the report
+			}
+			applied = append(applied, func() { rec.state = opHeld; rec.wasHeld = true })
+		case VFail:
+			applied = append(applied, func() { rec.state = opFailed; rec.unacked = true })
+		}
+	}
+	e.report(prop, "state-after-termination", "state matches no prefix of the dead stream's unanswered operations", fmt.Sprintf("unanswered: %d operations; diff against 'none applied': %v", len(out), diffSnap(modelSnapshot(e.model, "", -1), impl)), false)
+}
+
+func implHas(s Snapshot, k Key) bool { _, ok := s[k]; return ok }
+
+func (e *env) implSnapshot() Snapshot {
+	rc, err := e.srv.VerifRIB().RIBContents()
+	if err != nil {
+		e.report("C01", "rib-contents-error", "RIBContents failed", err.Error(), false)
+	}
+	snap, err := snapFromRIBContents(rc)
+	if err != nil {
+		e.report("C07", "payload-unmarshalable", "installed entry cannot be rendered as proto", err.Error(), false)
+	}
+	return snap
 }
